@@ -78,11 +78,12 @@ const (
 
 // Source serves Data[:Limit] under a delivery policy and then behaves as Term says.
 type Source struct {
-	Data   []byte
-	Off    int
-	Chunk  int   // default bytes per Read call; 0 = as many as fit
-	Pieces []int // explicit sizes of the first deliveries (then Chunk applies)
-	Limit  int   // bytes released; -1 = all of Data
+	Data       []byte
+	Off        int
+	Chunk      int   // default bytes per Read call; 0 = as many as fit
+	Bounds     []int // stream offsets at which a delivery must end (no Read crosses one)
+	ChunkAfter int   // Chunk applies only once Off >= ChunkAfter
+	Limit      int   // bytes released; -1 = all of Data
 
 	Term     int
 	Err      error // for TermErr
@@ -134,12 +135,16 @@ func (s *Source) Read(p []byte) (int, error) {
 	if n > len(p) {
 		n = len(p)
 	}
-	if s.Calls-s.ZeroReads <= len(s.Pieces) {
-		if pc := s.Pieces[s.Calls-s.ZeroReads-1]; pc > 0 && n > pc {
-			n = pc
-		}
-	} else if s.Chunk > 0 && n > s.Chunk {
+	if s.Chunk > 0 && n > s.Chunk && s.Off >= s.ChunkAfter {
 		n = s.Chunk
+	}
+	if s.Chunk > 0 && s.Off < s.ChunkAfter && s.Off+n > s.ChunkAfter {
+		n = s.ChunkAfter - s.Off
+	}
+	for _, b := range s.Bounds {
+		if b > s.Off && s.Off+n > b {
+			n = b - s.Off
+		}
 	}
 	if s.D != nil && s.Calls <= s.MaxDevCalls && len(s.Short) > 0 && n > 1 {
 		// only offer short reads that really are shorter
